@@ -46,6 +46,7 @@ from .mbox import Mailbox, NoSuchMailbox, canonical_mbox_name
 from .mh import MH
 from .parse import BadCommand, IMAPClientCommand
 from .trace import toggle_trace, trace
+from .utils import resp_text
 
 if TYPE_CHECKING:
     from _typeshed import StrPath
@@ -278,10 +279,11 @@ class IMAPClientProxy:
                 if self.cmd_processor.idling:
                     ls_imap_msg = imap_msg.lower().strip()
                     if ls_imap_msg.endswith("idle"):
-                        await self.push("+ idling")
+                        await self.push("+ idling\r\n")
                     elif ls_imap_msg != "done":
                         await self.push(
-                            f"* NO Expected 'DONE' not: {imap_msg}\r\n"
+                            "* NO Expected 'DONE' not: "
+                            f"{resp_text(imap_msg).strip()}\r\n"
                         )
                     else:
                         await self.cmd_processor.do_done()
@@ -299,9 +301,11 @@ class IMAPClientProxy:
                     #
                     logger.debug("*** Bad command! '%s'", imap_msg)
                     if imap_cmd.tag is not None:
-                        await self.push(f"{imap_cmd.tag} BAD {e}\r\n")
+                        await self.push(
+                            f"{imap_cmd.tag} BAD {resp_text(e)}\r\n"
+                        )
                     else:
-                        await self.push(f"* BAD {e}\r\n")
+                        await self.push(f"* BAD {resp_text(e)}\r\n")
                     # The client has been told. A command that does not
                     # parse is no reason to drop the connection.
                     #
